@@ -59,6 +59,10 @@ class Models:
         return None
 
     def member_access(self, unit, n, base_text):
+        base = unit.kids(n)[0]
+        bt = (base.get('type', {}).get('desugaredQualType') or base.get('type', {}).get('qualType', '')).replace('const ', '').replace('struct ', '').replace('*', '').strip()
+        if bt in ('iovec', 'timeval', 'timespec', 'tm'):
+            return '%s%s%s' % (base_text, '->' if n.get('isArrow') else '.', n['name'])     # plain C struct of the system headers
         for p in self.plugins:
             r = p.member_access(unit, n, base_text)
             if r is not None: return r
@@ -69,6 +73,8 @@ class Models:
         if name in LIBC_PASSTHROUGH:
             self.used.add(name)
             return '%s(%s)' % (LIBC_PASSTHROUGH[name], ', '.join(unit.expr(a) for a in args))
+        if name == '__errno_location': return '(&v_errno)'
+        if name == 'strerror': return '((char *)0)'
         if name == 'swap' and len(args) == 2:
             self.used.add('std::swap')
             a, b = args
